@@ -34,16 +34,21 @@ pub fn run(ctx: &Ctx) {
     run_cases(
         ctx,
         "c09-programs",
-        ctx.tier.pick(300usize, 4_000usize),
+        ctx.tier.pick(600usize, 6_000usize),
         crate::c08::c8_s,
         |c| match crate::c08::eval_cli(c) {
             CaseOutcome::Fail { key, what, replay } => CaseOutcome::Fail { key: key.replace("c08|", "c09|program|"), what, replay },
-            CaseOutcome::Pass { nontrivial, digest, .. } => CaseOutcome::Pass { nontrivial, classes: vec!["c09/program-run".into()], digest },
+            CaseOutcome::Pass { nontrivial, digest, classes } => {
+                let mut cl = vec!["c09/program-run".to_string()];
+                cl.extend(classes.into_iter().filter(|c| c.starts_with("c08/cli/")).map(|c| c.replace("c08/cli/", "c09/program/")));
+                CaseOutcome::Pass { nontrivial, classes: cl, digest }
+            }
             o => o,
         },
         |_| json!({"kind":"c09-program","generator":"C08 structured programs"}),
     );
     crate::c08::eof_family(ctx, "c09");
+    ctx.require_class("c09/program/ret-with-sp-above-its-value-at-the-call", 2);
     for k in ["c09/int/buffer-near-or-across-2^20", "c09/int/string-across-2^20", "c09/int/string-starts-at-or-beyond-2^20", "c09/int/line-longer-than-capacity"] {
         ctx.require_class(k, 10);
     }
